@@ -125,6 +125,7 @@ static void open_case(size_t m)
 	for (size_t i = 0; i < m; i++) if (g_plain[i]) { allzero = 0; last = i; }
 	if (allzero) CHECK(ret != 1, "all-padding inner plaintext is rejected");
 	if (ret == 1) {
+		V_COVER("accept path 1");
 		CHECK(outlen == last && outlen < inlen, "reported length = position of the content type, smaller than the ciphertext");
 		CHECK(type == g_plain[last] && (type == 20 || type == 21 || type == 22 || type == 23), "content type = last non-zero byte and is a known record type");
 		for (size_t i = 0; i < m; i++) if (i < outlen) CHECK(out[i] == g_plain[i], "payload");
